@@ -137,3 +137,24 @@ Example C12_nonvacuous :
   /\ simple_path ex_tree [0; 0] [1; 0; 0] [[0; 0]; [0]; []; [1]; [1; 0]; [1; 0; 0]] = true
   /\ node_go_to (0, [1; 0; 0]) (GNode (0, [1])) = Ret [[1; 0; 0]; [1; 0]; [1]].
 Proof. vm_compute. repeat split. Qed.
+
+(* Clauses the faithful model of the inherited queries on BinaryNode trees does NOT satisfy
+   (BinaryNode.children always has the two slots, an empty one being None; BaseNode.diameter and
+   BaseNode.siblings iterate over them unchanged).  Proposed findings K4-C12 / K5-C12; exercised on
+   the implementation by the `binary` cases of the derived engine when enabled. *)
+Example C12_binary_diameter_refuted :
+  exists b, bt_diameter b = Raise AttributeError
+            /\ spec_diameter (bt_to_rose b) [] = 1
+            /\ prop_C12_binary_diameter (bt_to_rose b) [] (exn_code AttributeError) 0 = false.
+Proof. exists (BT 0 (Some (BT 1 None None)) None). vm_compute. repeat split. Qed.
+
+Example C12_binary_siblings_refuted :
+  exists b g, bt_siblings b g = [None]
+              /\ spec_siblings (bt_to_rose b) (pos_of_tag (bt_to_rose b) g) = []
+              /\ prop_C12_binary_siblings (bt_to_rose b) (pos_of_tag (bt_to_rose b) g) [None] = false.
+Proof. exists (BT 0 (Some (BT 1 None None)) None), 1. vm_compute. repeat split. Qed.
+
+(* on binary trees without a one-child node the inherited diameter is the first-principles one *)
+Example C12_binary_diameter_full_ok :
+  bt_diameter (BT 0 (Some (BT 1 (Some (BT 3 None None)) (Some (BT 4 None None)))) (Some (BT 2 None None))) = Ret 3.
+Proof. vm_compute. reflexivity. Qed.
